@@ -96,6 +96,23 @@ def _impl(tier, seed, search):
             o_ = (math.cos(sep) * a_ / np.linalg.norm(a_) + math.sin(sep) * perp) * 10.0 ** g.uniform(-3, 6)
             so('oa2r', lambda: b.oa2r(o_, a_), dict(o=o_, a=a_)); se('oa2tr', lambda: b.oa2tr(o_, a_), dict(o=o_, a=a_))
             valid_obj('SO3.OA', lambda: SO3.OA(o_, a_), dict(o=o_, a=a_))
+        # two short vectors (lengths 1e-4 .. 1e-2) that are perpendicular only up to 1e-8 .. 1e-6: the result is still orthonormal
+        perp2 = np.cross(a_, inputs.unit_axis(g))
+        if np.linalg.norm(perp2) > 1e-3 * np.linalg.norm(a_):
+            ah_ = a_ / np.linalg.norm(a_); perp2 = perp2 / np.linalg.norm(perp2); tilt = 10.0 ** g.uniform(-8, -6)
+            os_ = (perp2 + tilt * ah_) * 10.0 ** g.uniform(-4, -2); as_ = ah_ * 10.0 ** g.uniform(-4, -2)
+            so('oa2r(short)', lambda: b.oa2r(os_, as_), dict(o=os_, a=as_)); valid_obj('SO3.OA(short)', lambda: SO3.OA(os_, as_), dict(o=os_, a=as_)); valid_obj('SE3.OA(short)', lambda: SE3.OA(os_, as_), dict(o=os_, a=as_))
+        # sequences: the inverse and quotients of a multi-valued rigid motion, and constructors given N x 3 angle arrays, hold members only
+        if i % 4 == 1:
+            Ts_ = [inputs.se3(g) for _ in range(3)]; A3_ = g.uniform(-3, 3, size=(3, 3))
+            valid_obj('SE3[M].inv', lambda: SE3(Ts_, check=False).inv(), dict(M=3)); valid_obj('SE3/SE3[M]', lambda: SE3(Ts_[0], check=False) / SE3(Ts_, check=False), dict(M=3))
+            valid_obj('SE2[M].inv', lambda: SE2([inputs.se2(g) for _ in range(3)], check=False).inv(), dict(M=3))
+            for nm_, f_ in (('SE3.RPY(Nx3)', lambda: SE3.RPY(A3_)), ('SO3.RPY(Nx3)', lambda: SO3.RPY(A3_)), ('SE3.Eul(Nx3)', lambda: SE3.Eul(A3_)), ('SO3.Eul(Nx3)', lambda: SO3.Eul(A3_)),
+                            ('SE3.RPY(Nx3, deg, xyz)', lambda: SE3.RPY(A3_ * 50, unit='deg', order='xyz')), ('SE3.RPY(list of triples)', lambda: SE3.RPY([list(r_) for r_ in A3_]))):
+                Xn = valid_obj(nm_, f_, dict(angles=A3_))
+                if Xn is not None:
+                    want_sh = (4, 4) if nm_.startswith('SE3') else (3, 3)
+                    L.check(f'{nm_}:shape', len(Xn) == 3 and all(np.shape(a_m) == want_sh for a_m in Xn.data), dict(angles=A3_), f'{nm_} does not hold three {want_sh[0]}x{want_sh[1]} matrices', sig='ctor(Nx3):shape')
         # exponential coordinates
         w = inputs.unit_axis(g) * (float(g.uniform(0, 2 * math.pi)) if g.random() < 0.7 else 10.0 ** g.uniform(-12, 0))
         so('trexp-so3', lambda: b.trexp(w), dict(w=w))
@@ -155,6 +172,15 @@ def _impl(tier, seed, search):
         T2 = inputs.se3(g); s = float(g.choice([0.0, 1.0])) if g.random() < 0.2 else float(g.uniform(0, 1))
         se('trinterp', lambda: b.trinterp(T, T2, s), dict(T0=T, T1=T2, s=s))
         se('trinterp2', lambda: b.trinterp2(inputs.se2(g), inputs.se2(g), s), dict(s=s))
+        # interpolation between two nearby orientations (1e-7 .. 1e-2 rad apart, both away from the identity), strictly inside (0, 1), every entry point
+        Rg = inputs.rodrigues(inputs.unit_axis(g), float(g.uniform(0.5, 2.5))); dth = 10.0 ** g.uniform(-7, -2); Rnear = Rg @ inputs.rodrigues(inputs.unit_axis(g), dth)
+        si = float(g.uniform(0.2, 0.8)); Tg = np.eye(4); Tg[:3, :3] = Rg; Tg[:3, 3] = g.normal(size=3); Tnear = np.eye(4); Tnear[:3, :3] = Rnear; Tnear[:3, 3] = g.normal(size=3)
+        ninp = dict(R0=Rg, angle_between=dth, s=si)
+        so('trinterp(near, 3x3)', lambda: b.trinterp(Rg, Rnear, si), ninp); se('trinterp(near, 4x4)', lambda: b.trinterp(Tg, Tnear, si), ninp)
+        valid_obj('SO3.interp(near)', lambda: SO3(Rnear, check=False).interp(si, start=SO3(Rg, check=False)), ninp); valid_obj('SE3.interp(near)', lambda: SE3(Tnear, check=False).interp(si, start=SE3(Tg, check=False)), ninp)
+        qg, qn = b.r2q(Rg), b.r2q(Rnear)
+        uq('slerp(near)', lambda: b.slerp(qg, qn, si), ninp); uq('slerp(near, shortest)', lambda: b.slerp(qg, qn, si, shortest=True), ninp)
+        uq('UQ.interp(near)', lambda: UnitQuaternion(qg).interp(si, UnitQuaternion(qn)).vec, ninp)
         # class constructors
         valid_obj('SO3.Rx/Ry/Rz', lambda: getattr(SO3, 'R' + 'xyz'[i % 3])(thu, unit), inp)
         valid_obj('SE3.Rx/Ry/Rz', lambda: getattr(SE3, 'R' + 'xyz'[i % 3])([thu, -thu], unit), inp)
